@@ -50,10 +50,27 @@ def run(repo, rep, tier):
     _emission(repo, rep)
     _default_paths(repo, rep)
     _defaults(repo, rep)
+    # the table of HTML boolean attributes is a list of single words
+    nt, glued = L.glued_words(repo, ("chameleon.zpt.template",
+                                     "chameleon.zpt.program"))
+    if nt < 1:
+        raise AnalysisError("no word table found in zpt/template.py")
+    rep.check(not glued, "R07.5", "chameleon.zpt.template", "every entry of "
+              "a word table (BOOLEAN_HTML_ATTRIBUTES ...) is one string "
+              "literal: no two names are glued together by a missing comma",
+              construct="table-entry-glued",
+              where="%s:%d" % (glued[0][0].relpath, glued[0][1]) if glued
+              else "", detail="; ".join(g[2] for g in glued[:3]))
     # a translated attribute (i18n:attributes) whose value is None is still
     # dropped: the value is not handed to the translation function first
     from .c10 import translate_skips_none
     translate_skips_none(repo, rep, rule="R07.4")
+    # 'the escaped dynamic value': every path of the routine that converts
+    # and escapes an attribute value, for every value class (C02 owns the
+    # path analysis)
+    from . import c02
+    L.borrow(repo, rep, "R07.4", "C02", lambda r, p: c02._quote_paths(
+        r, p, tier), ("BAD", "class-missing"), minimum=3)
 
 
 # ---------------------------------------------------------------------------
